@@ -173,6 +173,16 @@ pub fn suite_c01(ctx: &mut Ctx) {
             let (a, b) = if i % 2 == 0 { (a, b) } else { (gen::neg(ty.n, a), b) };
             ctx.call(ty, "mul", ["m", "o", "a"][i % 3], &[a, b]);
         }
+        // exact scalings into a shorter-fraction regime (ties, 1/4 and 3/4 remainders) by mul and by div
+        let k = ctx.q(3000, 60_000);
+        for (i, &(a, bm, bd, _)) in pow2_shift_cases(ctx, ty.n, ty.es, k).iter().enumerate() {
+            let sp = ["m", "o", "a"][i % 3];
+            ctx.call(ty, "mul", sp, &[a, bm]);
+            ctx.call(ty, "div", sp, &[a, bd]);
+            if i % 4 == 0 {
+                ctx.call(ty, "mul", sp, &[bm, a]);
+            }
+        }
         // uniform random
         for _ in 0..ctx.q(5_000, 100_000) {
             let a = gen::random_pattern(ty.n, &mut ctx.rng);
@@ -192,6 +202,62 @@ pub fn suite_c01(ctx: &mut Ctx) {
         let k = ctx.q(400_000, 20_000_000);
         crate::screen::screen_fixed(ctx, ty, &crate::screen::ARITH, k);
     }
+    // P16E1: a coset of all 2^32 operand pairs (thorough: every pair) against the f64 route
+    let l2 = ctx.q(28, 32) as u32;
+    crate::screen::screen_p16_pairs(ctx, &P16T, l2);
+}
+
+/// Scaling by a power of two into a regime with FEWER fraction bits: a * 2^sb (or a / 2^-sb) is exact in the reals and
+/// its rounding discards exactly d = 1..3 low bits of a's fraction, which are set to each pattern (1, 11, 01, 10, 111,
+/// ...): exact ties with even / odd kept bit, 3/4-ulp and 1/4-ulp remainders whose only information is the bit just
+/// below the rounding bit.  For the fused family a dust addend c of either sign is supplied at every distance below
+/// the product (just below the last kept bit ... hundreds of binades), which must break an exact tie.
+/// Returns (a, b_mul, b_div, c).
+pub fn pow2_shift_cases(ctx: &mut Ctx, n: u32, es: u32, count: usize) -> Vec<(u64, u64, u64, u64)> {
+    let maxs = ((n - 2) << es) as i32;
+    let mut out = Vec::new();
+    let mut tries = 0;
+    while out.len() < count && tries < count * 200 {
+        tries += 1;
+        let sa = ctx.rng.gen_range(-maxs..=maxs);
+        let nfa = gen::frac_bits(n, es, sa.div_euclid(1 << es)) as i32;
+        if nfa < 2 {
+            continue;
+        }
+        let d = ctx.rng.gen_range(1..=3.min(nfa));
+        // target scale with nfa - d fraction bits
+        let st = ctx.rng.gen_range(-maxs..=maxs);
+        let nft = gen::frac_bits(n, es, st.div_euclid(1 << es)) as i32;
+        if nft != nfa - d || nft < 1 {
+            continue;
+        }
+        let sb = st - sa;
+        if sb.abs() > maxs {
+            continue;
+        }
+        // a's fraction: random high part, chosen low d bits (non-zero), occasionally a long run of ones above them
+        let low = ctx.rng.gen_range(1..(1u64 << d));
+        let mut f = (ctx.rng.gen::<u64>() >> (64 - nfa)) & !gen::mask(d as u32) | low;
+        if ctx.rng.gen_range(0..4) == 0 {
+            f |= gen::mask(nfa as u32) & !gen::mask(d as u32); // kept part all ones: the round-up carries into the exponent
+        }
+        let a = gen::from_scale(n, es, sa, f << (64 - nfa));
+        let b_mul = gen::from_scale(n, es, sb, 0);
+        let b_div = gen::from_scale(n, es, -sb, 0);
+        // dust: below the last discarded bit of the product (weight 2^(st - nfa))
+        let below = match ctx.rng.gen_range(0..4) {
+            0 => ctx.rng.gen_range(1..4),
+            1 => ctx.rng.gen_range(4..40),
+            2 => ctx.rng.gen_range(28..70),
+            _ => ctx.rng.gen_range(60..2 * maxs.max(61)),
+        };
+        let sc = (st - nfa - below).max(-maxs);
+        let c = gen::from_scale(n, es, sc, if ctx.rng.gen::<bool>() { 0 } else { ctx.rng.gen::<u64>() });
+        let c = if ctx.rng.gen::<bool>() { gen::neg(n, c) } else { c };
+        let a = if ctx.rng.gen_range(0..3) == 0 { gen::neg(n, a) } else { a };
+        out.push((a, b_mul, b_div, c));
+    }
+    out
 }
 
 /// selftest trace: dataflow programs over operations that are exercised by every check
@@ -263,6 +329,17 @@ pub fn suite_c05(ctx: &mut Ctx) {
                 0 => { ctx.call(ty, "mul_add", "m", &[a, b, c]); }
                 1 => { ctx.call(ty, "mul_sub", "m", &[a, b, gen::neg(ty.n, c)]); }
                 _ => { ctx.call(ty, "sub_product", "m", &[c, gen::neg(ty.n, a), b]); }
+            }
+        }
+        // a product that is exactly a tie (or 1/4, 3/4 of an ulp) plus a dust addend of either sign at every distance below
+        if ty.n > 8 {
+            let k = ctx.q(3000, 60_000);
+            for (i, &(a, b, _, c)) in pow2_shift_cases(ctx, ty.n, ty.es, k).iter().enumerate() {
+                match i % 3 {
+                    0 => { ctx.call(ty, "mul_add", "m", &[a, b, c]); }
+                    1 => { ctx.call(ty, "mul_sub", "m", &[a, b, c]); }
+                    _ => { ctx.call(ty, "sub_product", "m", &[c, a, b]); }
+                }
             }
         }
         // specials
@@ -348,7 +425,7 @@ pub fn suite_c06(ctx: &mut Ctx) {
         let k = ctx.q(300_000, 20_000_000);
         crate::screen::screen_fixed(ctx, ty, &["sqrt"], k);
     }
-    let l2 = ctx.q(24, 28) as u32;
+    let l2 = ctx.q(28, 32) as u32;
     crate::screen::screen_unary32(ctx, &P32T, &["sqrt"], l2);
 }
 
@@ -392,7 +469,7 @@ pub fn suite_c09(ctx: &mut Ctx) {
         }
     }
     // screening sweep over a seeded coset of all P32E2 patterns (selection only; see screen.rs)
-    let l2 = ctx.q(24, 28) as u32;
+    let l2 = ctx.q(28, 32) as u32;
     crate::screen::screen_unary32(ctx, &P32T, &["round", "floor", "ceil", "trunc", "fract"], l2);
 }
 
@@ -551,6 +628,17 @@ pub fn suite_c02(ctx: &mut Ctx) {
             let v = gen::to_f64_exact(n1, ty.es, m);
             f64_neighbours(v, &mut b64);
             f64_neighbours(-v, &mut b64);
+            // the tie plus ONE mantissa bit anywhere below it (the only sticky information, at every distance)
+            for _ in 0..(if ty.n <= 16 { 1 } else { 4 }) {
+                let j = ctx.rng.gen_range(0..52);
+                let s = (ctx.rng.gen::<u64>() & 1) << 63;
+                b64.push((v.to_bits() | (1u64 << j)) ^ s);
+                let f = v as f32;
+                if f as f64 == v {
+                    let j = ctx.rng.gen_range(0..23);
+                    b32.push(((f.to_bits() | (1u32 << j)) as u64) ^ (s >> 32));
+                }
+            }
             if ty.n <= 16 || m % 5 == 0 {
                 f32_neighbours(v, &mut b32);
                 f32_neighbours(-v, &mut b32);
@@ -581,7 +669,7 @@ pub fn suite_c02(ctx: &mut Ctx) {
         }
     }
     // screening sweep over a seeded coset of all f32 patterns (selection only; see screen.rs)
-    let l2 = ctx.q(23, 27) as u32;
+    let l2 = ctx.q(26, 32) as u32;
     crate::screen::screen_from32(ctx, &[&P8T, &P16T, &P32T], &["from_f32"], l2);
 }
 
@@ -604,7 +692,7 @@ pub fn suite_c03(ctx: &mut Ctx) {
         }
     }
     // screening sweep over a seeded coset of all P32E2 patterns (selection only; see screen.rs)
-    let l2 = ctx.q(24, 28) as u32;
+    let l2 = ctx.q(28, 32) as u32;
     crate::screen::screen_unary32(ctx, &P32T, &["to_f32", "to_f64"], l2);
 }
 
@@ -660,9 +748,9 @@ pub fn suite_c07(ctx: &mut Ctx) {
         }
     }
     // screening sweeps (selection only; see screen.rs)
-    let l2 = ctx.q(24, 28) as u32;
+    let l2 = ctx.q(28, 32) as u32;
     crate::screen::screen_unary32(ctx, &P32T, &["to_i32", "to_u32", "to_i64", "to_u64"], l2);
-    let l2 = ctx.q(22, 26) as u32;
+    let l2 = ctx.q(26, 32) as u32;
     crate::screen::screen_from32(ctx, &[&P8T, &P16T, &P32T], &["from_i32", "from_u32"], l2);
     let k = ctx.q(300_000, 20_000_000);
     crate::screen::screen_from64(ctx, &[&P8T, &P16T, &P32T], k);
@@ -703,7 +791,7 @@ pub fn suite_c08(ctx: &mut Ctx) {
         }
     }
     // screening sweep over a seeded coset of all P32E2 patterns (selection only; see screen.rs)
-    let l2 = ctx.q(24, 28) as u32;
+    let l2 = ctx.q(28, 32) as u32;
     crate::screen::screen_unary32(ctx, &P32T, &["to_p16", "to_p8"], l2);
 }
 
